@@ -330,6 +330,34 @@ def lemma_spec_operands(k: int, side: int, p: int) -> bool:
     return _spec_operand(k, side, p)
 
 
+def spec_wrap(w, probe):
+    X = ID('x')
+    if w == 0: return [ID('g'), LP, ID('y'), CM] + probe + [RP]              # argument of an ordinary call
+    if w == 1: return [LP] + probe + [RP]                                     # parenthesised
+    if w == 2: return [X, LS] + probe + [RS]                                  # index
+    if w == 3: return [LS, ID('y'), CM] + probe + [RS, LS, T.IntToken(0), RS]  # element of an indexed array literal
+    if w == 4: return [T.OpToken.SUB] + probe + [T.OpToken.ADD, ID('y')]      # operand of arithmetic
+    if w == 5: return [ID('g'), LP, ID('h'), LP] + probe + [RP, RP]           # argument of a call inside an argument
+    raise ValueError(w)
+
+
+NSW = 6
+YOU_CTXS = [k for k in range(NCTX) if has(CTXS[k], BC.YOU)]
+
+
+def lemma_spec_operands_wrapped(yk: int, side: int, w: int, p: int) -> bool:
+    """
+    pre: 0 <= yk < len(YOU_CTXS) and 0 <= side <= 1 and 0 <= w < NSW and 0 <= p < NE
+    post: __return__
+    """
+    # the restriction on the operands of ?? reaches into every sub-expression of the operand
+    ctx = CTXS[YOU_CTXS[yk]]
+    other = [ID('z')]
+    opnd = spec_wrap(w, EPROBES[p])
+    toks = (opnd + [T.OpToken.SPECULATION] + other) if side == 0 else (other + [T.OpToken.SPECULATION] + opnd)
+    return accepts(ps_expr(ctx), toks) == e_allowed(CTX_SPEC[int(ctx)], p)
+
+
 def twin_spec_operands(k: int, side: int, p: int) -> bool:
     """
     pre: 0 <= k < NCTX and 0 <= side <= 1 and 0 <= p < NE
@@ -417,3 +445,16 @@ for _f in range(3):
 for _p in range(NG):
     for _f in range(3):
         lemma_global_no_calls_anywhere(_p, _f)
+
+
+def twin_spec_wrapped_split(yk: int, w: int, p: int) -> bool:
+    """
+    pre: 0 <= yk < len(YOU_CTXS) and 0 <= w < NSW and 0 <= p < NE
+    post: __return__
+    """
+    # vacuity twin (goes through the same partitioning as the lemma): claims that every wrapped operand is accepted
+    ctx = CTXS[YOU_CTXS[yk]]
+    return accepts(ps_expr(ctx), spec_wrap(w, EPROBES[p]) + [T.OpToken.SPECULATION, ID('z')])
+
+
+SPLITS = {'lemma_spec_operands_wrapped': ('w', 6), 'twin_spec_wrapped_split': ('w', 2)}
